@@ -528,6 +528,8 @@ class SymReal:
     def _cmp(s, o, f):
         if isinstance(o, float) and o != o:
             return False
+        if isinstance(o, float) and o in (float("inf"), float("-inf")):
+            return bool(f(0.0, o))  # every real compares with an infinity like 0 does
         ot = to_term(o)
         if ot is None:
             return NotImplemented
@@ -720,6 +722,8 @@ class SymNorm(SymReal):
         return SymReal(-self.t)
 
     def _ncmp(self, o, strict, less):
+        if isinstance(o, float) and o in (float("inf"), float("-inf")):
+            return (o > 0) if less else (o < 0)
         if isinstance(o, SymNorm):  # sqrt is monotone: compare the radicands
             if less:
                 return SymBool(self.sq < o.sq if strict else self.sq <= o.sq)
